@@ -409,7 +409,7 @@ pub fn all() -> Vec<Scenario> {
     pw17.app.vis = 2;
     v.push(Scenario {
         id: "F17",
-        props: vec!["C01"],
+        props: vec!["C01", "C16"],
         trace: Trace {
             profile: pw17,
             steps: cat(vec![
@@ -425,7 +425,7 @@ pub fn all() -> Vec<Scenario> {
                 vec![Step::Heal],
             ]),
         },
-        symptom_oracles: vec!["reference_target"],
+        symptom_oracles: vec!["reference_target", "reference_to_duplicate"],
     });
 
     // F20 (known): replication at tick 0 cannot be told from "nothing received yet".
